@@ -30,4 +30,22 @@ def run(check):
     # a forwarding call that cannot be translated must abort discovery (plain signature), never be skipped
     from ..rules_visitor import rule_nested_scope_effects
     check.run_rule('C05.R9', lambda c: rule_nested_scope_effects(c, 'C05.R9'))
+    # the discovered signature is merge(forwards(...) for every forwarding call) = merge/embed/mask: their structural
+    # soundness clauses are necessary conditions of "every accepted call runs" (shared with C01/C02/C03; precision-only
+    # columns are not registered here)
+    from ._shared import Models
+    from .. import rules_merge as rm
+    from ..rules_embed import rule_embed_buckets, rule_embed_dupes, rule_embed_flags
+    from ..rules_mask import rule_mask_names, rule_mask_consume, rule_mask_hide
+    M = Models(check)
+    check.run_rule('C05.R10', lambda c: rm.rule_tables(c, M.merge(), 'C05.R10', ('sound',), 'merge over the forwarding calls is sound (tables B2-B4)'))
+    check.run_rule('C05.R10b', lambda c: rm.rule_kwo_and_stars(c, M.merge(), 'C05.R10', ('sound',)))
+    check.run_rule('C05.R10c', lambda c: rule_embed_buckets(c, M.embed(), {'kinds': 'C05.R10', 'clear_must': 'C05.R10', 'clear_only': None, 'order': None}))
+    check.run_rule('C05.R10d', lambda c: rule_embed_dupes(c, M.embed(), 'C05.R10'))
+    check.run_rule('C05.R10e', lambda c: rule_embed_flags(c, M.embed(), 'C05.R10'))
+    check.run_rule('C05.R10f', lambda c: rule_mask_names(c, M.mask(), {'table': 'C05.R10', 'index': 'C05.R10', 'kinds': 'C05.R10', 'src': None, 'pdefault': None}))
+    check.run_rule('C05.R10g', lambda c: rule_mask_consume(c, M.mask(), 'C05.R10'))
+    check.run_rule('C05.R10h', lambda c: rule_mask_hide(c, M.mask(), 'C05.R10', None))
+    from ..rules_visitor import rule_definition_time_expressions
+    check.run_rule('C05.R3b', lambda c: rule_definition_time_expressions(c, 'C05.R3'))
     check.run_rule('C05.R8', lambda c: rule_translation(c, {'translate': 'C05.R8', 'fallback': 'C05.R8'}))
